@@ -43,6 +43,8 @@ def case_key(summary):
 
 
 def run_one(prop, case, idx):
+    from vmon import simkit
+    simkit.CURRENT_CASE_SEED = str(case.get("stim_seed", ""))
     try:
         r = prop.run_case(case)
     except RecursionError as e:  # deep recursion in repo code: report, do not die
